@@ -9,21 +9,23 @@ Bsl == 92
 RECURSIVE EscapeKey(_)
 EscapeKey(k) == IF k = <<>> THEN <<>>
                 ELSE (IF Head(k) \in {Dot, Bsl} THEN <<Bsl, Head(k)>> ELSE <<Head(k)>>) \o EscapeKey(Tail(k))
-Join(prefix, k) == IF prefix = <<>> THEN EscapeKey(k) ELSE prefix \o <<Dot>> \o EscapeKey(k)
-
+\* the path of a property below the root is its escaped name; below any other object, the object's path, a dot, the escaped
+\* name.  The root is told apart by a flag, not by an empty path: a property may have the empty name.
 \* JSON value == [t : {"obj","str","int","bool","null","arr"}, mem : Seq([k, v]), s : Seq(cp), n : Int, b : BOOLEAN,
 \*                items : Seq(scalar value)]
 \* Flatten gives the set of <<path, leaf>>; an empty object is a leaf of its own, arrays are leaves.
-RECURSIVE Flatten(_, _)
-Flatten(v, prefix) ==
+RECURSIVE FlattenAt(_, _, _)
+FlattenAt(v, prefix, root) ==
   IF v.t = "obj" /\ Len(v.mem) > 0
-  THEN UNION {Flatten(v.mem[i].v, Join(prefix, v.mem[i].k)) : i \in 1..Len(v.mem)}
+  THEN UNION {FlattenAt(v.mem[i].v, IF root THEN EscapeKey(v.mem[i].k) ELSE prefix \o <<Dot>> \o EscapeKey(v.mem[i].k), FALSE) :
+                i \in 1..Len(v.mem)}
   ELSE {<<prefix, v>>}
-Paths(v) == {x[1] : x \in Flatten(v, <<>>)}
-Lookup(v, path) == LET hits == {x \in Flatten(v, <<>>) : x[1] = path} IN
+Flatten(v) == FlattenAt(v, <<>>, TRUE)
+Paths(v) == {x[1] : x \in Flatten(v)}
+Lookup(v, path) == LET hits == {x \in Flatten(v) : x[1] = path} IN
                    IF hits = {} THEN [t |-> "absent"] ELSE (CHOOSE x \in hits : TRUE)[2]
 \* with unique keys per object, no two leaves share a path
-PathsUnique(v) == \A x, y \in Flatten(v, <<>>) : x[1] = y[1] => x = y
+PathsUnique(v) == \A x, y \in Flatten(v) : x[1] = y[1] => x = y
 
 (* ---- conditions ---- *)
 \* event_match: only string leaves can match, even for the pattern "*"
